@@ -984,7 +984,10 @@ func TestNeighbourStrings(t *testing.T) {
 		sep := []string{"://", "://", "://", ":", ":/", "//", ""}[rapid.IntRange(0, 6).Draw(rt, "sep")]
 		rest := []string{"127.0.0.1:1", "127.0.0.1", ":1", "", "localhost:99999", "[::1]:1", "/abs/path.sock", "rel.sock", "127.0.0.1:1/ws/all?x=1", "user:pw@127.0.0.1:1", "%zz", " 127.0.0.1:1 ", "a~b", "127.0.0.1:1~"}[rapid.IntRange(0, 13).Draw(rt, "rest")]
 		address := s + sep + rest
-		pos := rapid.IntRange(0, 4).Draw(rt, "position")
+		// values as they arrive from shell scripts and environment files: padded, or with a line end
+		pad := []string{"", "", "", " ", "\t", "\n", "\r\n"}
+		address = pad[rapid.IntRange(0, 6).Draw(rt, "padBefore")] + address + pad[rapid.IntRange(0, 6).Draw(rt, "padAfter")]
+		pos := rapid.IntRange(0, 6).Draw(rt, "position")
 		var p parsed
 		name := ""
 		switch pos {
@@ -1001,9 +1004,22 @@ func TestNeighbourStrings(t *testing.T) {
 		case 3:
 			name = "upstream-cli"
 			p = parseArgs([]string{"client", "--upstream", address})
-		default:
+		case 4:
 			name = "listener-cli"
 			p = parseArgs([]string{"client", "--upstream", "tcp://127.0.0.1:9", "--listen", "data~" + address})
+		case 5:
+			// the command-line form of a channel: <name>-><protocol>:<address>
+			name = "channel-cli"
+			spec := "x->" + address
+			if rapid.Bool().Draw(rt, "padWholeSpec") {
+				spec = pad[rapid.IntRange(0, 6).Draw(rt, "specPadBefore")] + "x->" + strings.TrimSpace(address) + pad[rapid.IntRange(0, 6).Draw(rt, "specPadAfter")]
+			}
+			desc0 := spec
+			address = desc0
+			p = parseArgs([]string{"server", "--server", "[{\"address\":\"tcp://127.0.0.1:1\"}]", "--channel", spec})
+		default:
+			name = "listener-cli-whole"
+			p = parseArgs([]string{"client", "--upstream", "tcp://127.0.0.1:9", "--listen", pad[rapid.IntRange(0, 6).Draw(rt, "lpad")] + "data~" + strings.TrimSpace(address)})
 		}
 		outcome := "accepted"
 		if p.Err != nil {
